@@ -58,6 +58,14 @@ type Contract struct {
 	Thread      bool
 	Props       map[string]bool
 	Flags       []string
+	GhostSets   []GhostSet        // ghost assignments executed at every exit of the function
+	Conforms    []string          // named specs this (anonymous) function is declared to satisfy
+	MaybeSpecs  map[string]string // func-typed params whose spec applies only if the argument conforms
+}
+
+type GhostSet struct {
+	Target *Expr // ghost or ghost[key]
+	Value  Clause
 }
 
 type GhostDecl struct {
@@ -174,7 +182,7 @@ func parseSig(s string) (string, []string, []string, bool) {
 }
 
 func isIdentChar(c byte) bool {
-	return c == '_' || c == '$' || (c >= '0' && c <= '9') || (c >= 'a' && c <= 'z') || (c >= 'A' && c <= 'Z')
+	return c == '_' || c == '$' || c == ']' || (c >= '0' && c <= '9') || (c >= 'a' && c <= 'z') || (c >= 'A' && c <= 'Z')
 }
 
 func splitNames(s string) []string {
@@ -216,11 +224,14 @@ func (db *SpecDB) LoadFile(file string, pkgPath string) error {
 	sc.Buffer(make([]byte, 1<<20), 1<<20)
 	var cur *Contract
 	prop := ""
+	fileProp := "" // set by an unindented `property` line; the default for every following contract block
 	ln := 0
 	isSpecFile := strings.HasSuffix(file, ".spec")
 	var pending string
 	pendingLine := 0
+	topLevel := false
 	process := func(text string, ln int) error {
+		topLevel = !(strings.HasPrefix(text, "  ") || strings.HasPrefix(text, "\t"))
 		text = strings.TrimSpace(text)
 		if text == "" {
 			return nil
@@ -331,10 +342,17 @@ func (db *SpecDB) LoadFile(file string, pkgPath string) error {
 			if has {
 				cur.ParamNames, cur.ResultNames, cur.HasNames = ps, rs, true
 			}
-			prop = ""
+			prop = fileProp
+			if prop != "" {
+				cur.Props[prop] = true
+			}
 		case "property":
 			prop = strings.TrimSpace(rest)
-			if cur != nil {
+			if topLevel {
+				fileProp = prop
+				cur = nil
+			}
+			if cur != nil && prop != "" {
 				cur.Props[prop] = true
 			}
 		case "requires", "ensures":
@@ -365,12 +383,17 @@ func (db *SpecDB) LoadFile(file string, pkgPath string) error {
 				}
 				cur.Modifies = append(cur.Modifies, m)
 			}
-		case "param", "result":
+		case "param", "result", "maybe":
 			if cur == nil || len(fields) != 4 || fields[2] != "is" {
 				return fmt.Errorf("%s:%d: %s name is Spec", file, ln, kw)
 			}
 			if kw == "param" {
 				cur.ParamSpecs[fields[1]] = fields[3]
+			} else if kw == "maybe" {
+				if cur.MaybeSpecs == nil {
+					cur.MaybeSpecs = map[string]string{}
+				}
+				cur.MaybeSpecs[fields[1]] = fields[3]
 			} else {
 				cur.ResultSpecs[fields[1]] = fields[3]
 			}
@@ -432,6 +455,32 @@ func (db *SpecDB) LoadFile(file string, pkgPath string) error {
 			if cur != nil {
 				cur.Flags = append(cur.Flags, fields[1:]...)
 			}
+		case "ghostset":
+			// ghostset g[k] := e
+			if cur == nil {
+				return fmt.Errorf("%s:%d: ghostset outside a contract", file, ln)
+			}
+			parts := strings.SplitN(rest, ":=", 2)
+			if len(parts) != 2 {
+				return fmt.Errorf("%s:%d: ghostset target := expr", file, ln)
+			}
+			te, err := ParseExpr(strings.TrimSpace(parts[0]))
+			if err != nil {
+				return fmt.Errorf("%s:%d: %v", file, ln, err)
+			}
+			cl, err := parseClause(parts[1], prop, file, ln)
+			if err != nil {
+				return err
+			}
+			cur.GhostSets = append(cur.GhostSets, GhostSet{Target: te, Value: cl})
+		case "conforms":
+			if cur == nil {
+				return fmt.Errorf("%s:%d: conforms outside a contract", file, ln)
+			}
+			cur.Conforms = append(cur.Conforms, fields[1:]...)
+			if prop != "" {
+				cur.Props[prop] = true
+			}
 		case "pure":
 			if cur != nil {
 				cur.Pure = true
@@ -487,7 +536,11 @@ func (db *SpecDB) LoadFile(file string, pkgPath string) error {
 				return err
 			}
 		}
-		pending = t
+		// keep the indentation (after "//@" one space is the base level)
+		pending = strings.TrimRight(strings.TrimPrefix(text, " "), " \t")
+		if isSpecFile {
+			pending = strings.TrimRight(sc.Text(), " \t")
+		}
 		pendingLine = ln
 	}
 	if pending != "" {
@@ -523,6 +576,7 @@ func (db *SpecDB) LoadAll(repoRoot, modPath, specDir string) error {
 		return nil
 	})
 	sort.Strings(files)
+	defer db.expandGhostGroups()
 	for _, f := range files {
 		rel, _ := filepath.Rel(repoRoot, filepath.Dir(f))
 		pkgPath := modPath
@@ -534,4 +588,24 @@ func (db *SpecDB) LoadAll(repoRoot, modPath, specDir string) error {
 		}
 	}
 	return nil
+}
+
+// expandGhostGroups rewrites `modifies ghosts(Cnn)` into the list of ghost variables owned by property Cnn.
+func (db *SpecDB) expandGhostGroups() {
+	for _, c := range db.Contracts {
+		var out []string
+		for _, m := range c.Modifies {
+			if strings.HasPrefix(m, "ghosts(") && strings.HasSuffix(m, ")") {
+				p := strings.TrimSuffix(strings.TrimPrefix(m, "ghosts("), ")")
+				for _, g := range db.GhostOrder {
+					if db.Ghosts[g].Prop == p {
+						out = append(out, g)
+					}
+				}
+				continue
+			}
+			out = append(out, m)
+		}
+		c.Modifies = out
+	}
 }
